@@ -1195,6 +1195,6 @@ _run_udp = run
 def run(chk: Check):
     _run_udp(chk)
     from . import growth_socks5tcp
-    growth_socks5tcp.section(chk, 2 if chk.tier == "quick" else 3)
+    common.growth(chk, "Socks5Tcp", growth_socks5tcp.section, 2 if chk.tier == "quick" else 3)
     chk.cov["rule"] += ("  Socks5Tcp: every edge of the byte-fed model of the SOCKS5 TCP handshake/command loop (5 greetings x "
                         "sequences of 6 command kinds, EOF at every byte) replayed into SOCKS5Server.handle_connection.")
